@@ -13,3 +13,8 @@ func SetSchedHooks(point func(label string), block func(label string, waiting fu
 	verifrt.PointHook, verifrt.BlockHook = point, block
 }
 func AccessSites() []string { return verifrt.Sites }
+
+// GlobalPointers returns pointers to every package-level variable of the library, per package.
+func GlobalPointers() map[string]map[string]interface{} { return verifrt.Globals }
+
+func AtomicImports() int { return verifrt.AtomicImports }
